@@ -63,6 +63,17 @@ def tokenize(s):
 
 def emit_deps(instream, outstream):
     state = State.target
+    escaped = False
+
+    def write_char(value):
+        # A `%` in a target would make this a pattern rule (which does nothing
+        # here), so it has to be escaped. In the depfile, it's a prerequisite,
+        # where `%` is just an ordinary character.
+        nonlocal escaped
+        if value == '%' and not escaped:
+            outstream.write('\\')
+        outstream.write(value)
+        escaped = value == '\\' and not escaped
 
     for tok, value in tokenize(instream.read()):
         if state == State.target:
@@ -81,7 +92,7 @@ def emit_deps(instream, outstream):
                 raise UnexpectedTokenError(tok)
         elif state == State.dep:
             if tok == Token.char:
-                outstream.write(value)
+                write_char(value)
             elif tok == Token.space:
                 outstream.write(':\n')
                 state = State.between_deps
@@ -93,7 +104,8 @@ def emit_deps(instream, outstream):
         else:  # state == State.between_deps
             if tok == Token.char:
                 state = State.dep
-                outstream.write(value)
+                escaped = False
+                write_char(value)
             elif tok == Token.newline:
                 state = State.target
             elif tok != Token.space:
